@@ -1,6 +1,8 @@
 package main
 
 import (
+	"runtime"
+	"sync/atomic"
 	"fmt"
 	"net"
 	"sort"
@@ -332,4 +334,16 @@ func c15RaceScenarios(tier string) []*Scenario {
 		}
 	}
 	return []*Scenario{sc}
+}
+
+// newGate returns a function that blocks until n goroutines have called it (free-running bodies only): the
+// goroutines then start their work at the same moment and without any happens-before edge between them.
+func newGate(n int32) func() {
+	var arrived int32
+	return func() {
+		atomic.AddInt32(&arrived, 1)
+		for atomic.LoadInt32(&arrived) < n {
+			runtime.Gosched()
+		}
+	}
 }
